@@ -10,7 +10,7 @@
  "name": "unix_flush",
  "props": ["C17", "C04"],
  "level": "U",
- "tier": "wip",
+ "tier": "quick",
  "harness": "h_flush_sync",
  "enforce": ["unix_flush"],
  "replace": ["flush_cached_blocks"],
@@ -30,7 +30,7 @@
  "name": "unix_write_byte",
  "props": ["C17"],
  "level": "U",
- "tier": "wip",
+ "tier": "quick",
  "harness": "h_write_byte",
  "enforce": ["unix_write_byte"],
  "replace": ["flush_cached_blocks"],
@@ -50,7 +50,7 @@
  "name": "unix_zeroout",
  "props": ["C17"],
  "level": "U",
- "tier": "wip",
+ "tier": "quick",
  "harness": "h_zeroout",
  "enforce": ["unix_zeroout"],
  "replace": ["flush_cached_blocks"],
@@ -70,7 +70,7 @@
  "name": "unix_discard",
  "props": ["C17"],
  "level": "U",
- "tier": "wip",
+ "tier": "quick",
  "harness": "h_discard",
  "enforce": ["unix_discard"],
  "unwind": 40,
@@ -98,7 +98,7 @@
  "unwind_reason": "only the harness loop that builds the 8 cache entries, strcmp on the two short constant option strings and the DFCC library loops are unwound",
  "defines": ["CFG_BS=16", "CFG_NO_PTHREAD"],
  "functions": ["lib/ext2fs/unix_io.c:unix_set_option"],
- "assumes": ["no write_error handler installed", "IO_FLAG_THREADS clear; built without HAVE_PTHREAD", "options \"cache=on\" and \"cache=off\" only (\"offset=\" is parsed by strtoull and is not part of this unit)"],
+ "assumes": ["no write_error handler installed", "IO_FLAG_THREADS clear; built without HAVE_PTHREAD", "options \"cache=on\" and \"cache=off\" only (\"offset=\" is parsed by strtoull and is not part of this unit)", "WIP BECAUSE OF A GENUINE DEFECT of the pinned tree: postcondition.2 fails (cache=off leaves entries valid), findings/C17_nocache_stale; passes with its proposed-fix.patch"],
  "backend": "cadical",
  "timeout": 300,
  "native": false
@@ -109,7 +109,7 @@
  "name": "unix_set_blksize",
  "props": ["C17"],
  "level": "U/k",
- "tier": "wip",
+ "tier": "quick",
  "harness": "h_set_blksize",
  "enforce": ["unix_set_blksize"],
  "replace": ["flush_cached_blocks"],
@@ -130,7 +130,7 @@
  "name": "unix_close",
  "props": ["C17", "C04"],
  "level": "U/k",
- "tier": "wip",
+ "tier": "thorough",
  "harness": "h_close",
  "enforce": ["unix_close"],
  "replace": ["flush_cached_blocks"],
